@@ -3,6 +3,7 @@ CONSTANTS
   RoutingKeysLast = FALSE
   ReplicaUsesRowDb = FALSE
   CsvFallsThrough = TRUE
+  TypedKeepsFirstM = FALSE
   MaxDecoys = 2
   AllPairs = FALSE
   Emit = FALSE
